@@ -57,7 +57,7 @@ func Supported(t *abs.TD, o Opts) bool {
 		return Supported(t.Val, o)
 	case "struct":
 		for i := range t.F {
-			if !Supported(t.F[i].T, o) {
+			if !Supported(t.F[i].T, o) || (t.F[i].Opt == "flattime" && !o.BQ) {
 				return false
 			}
 		}
